@@ -5,7 +5,8 @@
    Stop: no send on a closed channel, exactly-once hand-over, producers released after stop.  The race-detector
    stress run validates the rest.  Statements only. *)
 From Coq Require Import String List NArith Bool Permutation.
-From GoUpf Require Import ConstsGen ConcGen Conc ConcProofs.
+From GoUpf Require Import ConstsGen ConcGen PerioConcGen Conc ConcProofs.
+From GoUpf Require Shutdown ShutdownProofs.
 Import ListNotations.
 
 (* obligations over the tables regenerated from internal/pfcp/*.go *)
@@ -55,6 +56,38 @@ Theorem C17_stop_releases_producers : forall l c,
   crun c_init l = Next c -> main_exited c = true -> cstep c AGiveUp = Next c.
 Proof. exact stopped_releases_producers. Qed.
 Print Assumptions C17_stop_releases_producers.
+
+(* ---- shutdown composition: event loop, Stop, the driver.Close that follows it, the periodic server's CLOSE handling,
+   ticker goroutines.  The protocol parameters are READ OFF the generated channel-operation tables. *)
+Definition has3 (t : list (string * string * string)) (x : string * string * string) : bool :=
+  existsb (fun y => match x, y with (a, b, c), (a', b', c') => (String.eqb a a' && String.eqb b b' && String.eqb c c')%bool end) t.
+
+Definition shutdown_params : Shutdown.params :=
+  Shutdown.mkP (has3 offloop_chanops ("PfcpServer.Stop", "PfcpServer.done", "recv")%string)
+      (has3 perio_chanops ("PERIOGroup.stopTicker", "PERIOGroup.stopCh", "send")%string
+       && has3 perio_chanops ("PERIOGroup.stopTicker", "PERIOGroup.stopCh", "close")%string
+       && has3 perio_chanops ("Server.Serve$1", "Server.evtCh", "close")%string)
+      (has3 perio_chanops ("PERIOGroup.newTicker$1", "local.evtCh", "send-select")%string
+       && negb (has3 perio_chanops ("PERIOGroup.newTicker$1", "local.evtCh", "send")%string)
+       && has3 perio_chanops ("PERIOGroup.newTicker$1", "PERIOGroup.stopCh", "recv")%string).
+
+(* for the code as it is, with any number of tickers and under EVERY schedule of the loop, Stop, driver.Close, the
+   periodic server and the tickers: nobody ever sends on the closed event channel (no panic at shutdown) *)
+Theorem C17_shutdown_no_send_on_closed : forall n l, exists s, Shutdown.run shutdown_params (Shutdown.init n) l = Shutdown.Next s.
+Proof. intros n l. destruct (ShutdownProofs.run_from_init shutdown_params n l eq_refl eq_refl) as [s [E _]]. exists s. exact E. Qed.
+Print Assumptions C17_shutdown_no_send_on_closed.
+
+(* ... and the periodic server, once it has taken CLOSE, is never stuck waiting for a ticker (it terminates) *)
+Theorem C17_shutdown_server_never_stuck : forall n l s, Shutdown.run shutdown_params (Shutdown.init n) l = Shutdown.Next s -> Shutdown.serve_can_move shutdown_params s = true.
+Proof. intros n l s. exact (ShutdownProofs.never_stuck_from_init shutdown_params n l s eq_refl eq_refl eq_refl). Qed.
+Print Assumptions C17_shutdown_server_never_stuck.
+
+(* each protocol element is necessary: the code before fixes 3f.. (Stop did not wait) / with stopTicker reduced to a
+   close / with a plain tick send has a failing schedule *)
+Example C17_shutdown_elements_needed :
+  Shutdown.run (Shutdown.mkP false true true) (Shutdown.init 0) [Shutdown.StopReturn; Shutdown.DriverClose; Shutdown.ServeTakeClose; Shutdown.ServeFinish; Shutdown.LoopDriverCall] = Shutdown.SendOnClosed /\
+  Shutdown.run (Shutdown.mkP true false true) (Shutdown.init 1) [Shutdown.LoopExit; Shutdown.StopReturn; Shutdown.DriverClose; Shutdown.TickFire 0; Shutdown.ServeTakeClose; Shutdown.ServeStopTicker; Shutdown.ServeFinish; Shutdown.TickSent 0] = Shutdown.SendOnClosed.
+Proof. split; reflexivity. Qed.
 
 (* the code before fix 4d35da3 closed srCh/trToCh in the clean-up: the table check rejects such a table *)
 Example C17_legacy_closes_refuted :
